@@ -402,6 +402,10 @@ func c33RunCase(r *vkit.Run, cs *c33Case, report bool) (res c33Result) {
 		return tc.cli.WriteHeaders(streamID(i), fields, h2cli.HeadersOpt{})
 	}
 
+	endSent := func(j int) bool {
+		fs := cs.Streams[j].Frames
+		return len(fs) > 0 && fs[len(fs)-1].End
+	}
 	// runStream plays one stream's script; returns false to abort the connection.
 	runStream := func(i int) bool {
 		st := &cs.Streams[i]
@@ -434,16 +438,22 @@ func c33RunCase(r *vkit.Run, cs *c33Case, report bool) (res c33Result) {
 			var L int64
 			if st.Excess == "stream" {
 				L = sw + int64(st.ExcessBy)
-				if L > cw {
-					return true // cannot isolate a stream-level excess here; skip
-				}
 			} else {
 				L = cw + int64(st.ExcessBy)
-				if L > sw {
-					return true
-				}
 			}
-			if L > 1<<20 { // larger than the server's max frame size: would be FRAME_SIZE_ERROR instead
+			// skip when the excess cannot be isolated to the intended window, or the frame would be
+			// larger than the server's max frame size (FRAME_SIZE_ERROR instead)
+			if (st.Excess == "stream" && L > cw) || (st.Excess == "conn" && L > sw) || L > 1<<20 {
+				r.Count("excess_not_isolable_skipped", 1)
+				// finish every stream that is still open (the window-eating neighbour too)
+				for j, c := range ctls {
+					if c != nil && j <= i && (j == i || cs.Streams[j].Hold) && !endSent(j) {
+						closeOnce(c.hold)
+						if tc.cli.WriteData(streamID(j), true, nil) != nil {
+							return false
+						}
+					}
+				}
 				return true
 			}
 			r.Count("excess_frames_sent", 1)
@@ -775,8 +785,11 @@ func c33ReadAll(g *vkit.Rand, isw int64) c33Stream {
 	st := c33Stream{Kind: "readall", DeclLen: -1}
 	st.Chunk = []int{1, 7, 100, 1000, 4096, 16384, 70000}[g.Intn(7)]
 	total := []int{0, 1, 500, 20000, 65535, 65536, 150000, 400000}[g.Intn(8)]
-	if st.Chunk <= 7 && total > 20000 {
-		total = 20000
+	// every body read makes the server queue a connection-level WINDOW_UPDATE; those count as
+	// control frames and more than 10000 queued close the connection (C37's limit), so keep the
+	// number of reads per stream well below that
+	if total > st.Chunk*800 {
+		total = st.Chunk * 800
 	}
 	st.MidSync = g.Bool()
 	st.Hold = g.Chance(1, 4)
@@ -822,7 +835,7 @@ func c33Gen(r *vkit.Run, i int) *c33Case {
 			total := g.Range(1, budget)
 			st := c33Stream{Kind: "readn", Chunk: []int{1, 100, 4096}[g.Intn(3)], DeclLen: -1, Hold: true}
 			st.ReadN = int64([]int{0, 0, 1, total / 2}[g.Intn(4)])
-			if st.ReadN > 2000 && st.Chunk == 1 {
+			if st.ReadN > 800 && st.Chunk == 1 {
 				st.Chunk = 100
 			}
 			st.Frames = c33GenFrames(g, total, int64(budget), g.Bool())
@@ -1005,7 +1018,12 @@ func c33(r *vkit.Run) {
 			}
 			cs := c33Gen(r, idx)
 			cs.LargeConn = large
+			t0 := time.Now()
 			res := c33RunCase(r, cs, true)
+			if d := time.Since(t0); d > 5*time.Second && os.Getenv("VH2_DEBUG") != "" {
+				b, _ := json.Marshal(cs)
+				fmt.Fprintf(os.Stderr, "SLOW %v class=%s ok=%v %s\n", d, cs.Class, res.ok, trunc(string(b), 1200))
+			}
 			key := fmt.Sprintf("%+v", *cs)
 			r.CaseS(key, res.ok)
 			c33Judge(r, cs, res)
